@@ -34,6 +34,18 @@ type Taint struct {
 	edges   map[ssa.CallInstruction][]*callgraph.Edge
 	// Stores counts, per sink field key, every store seen (tainted or not).
 	SinkStores int
+	// BlockArg: do not propagate argument idx (receiver first) at this call site into the callee.
+	BlockArg func(site ssa.CallInstruction, callee *ssa.Function, idx int) bool
+	// AliasMode: taint means "is (part of) the very same mutable object": strings do not carry,
+	// library calls return fresh values (no flow through them).
+	AliasMode bool
+	// NoContainment: storing a tainted value into a container does not taint the container
+	// (taint then means "is, or is an element of, a source object", not "contains one").
+	NoContainment bool
+	// SeedFields: loads of these fields ("pkg.Type#Field") are sources.
+	SeedFields map[string]bool
+	// Sanitizer: results of calls to these functions are clean whatever the arguments.
+	Sanitizer func(callee *ssa.Function) bool
 	// Opaque: dynamic call sites with a tainted argument and no resolvable callee (user callbacks)
 	Opaque map[ssa.CallInstruction]bool
 }
@@ -86,6 +98,11 @@ func (t *Taint) Mark(v ssa.Value, why string) {
 	}
 	if !carries(v.Type()) {
 		return
+	}
+	if t.AliasMode {
+		if b, ok := v.Type().Underlying().(*types.Basic); ok && b.Info()&types.IsString != 0 {
+			return
+		}
 	}
 	if _, isConst := v.(*ssa.Const); isConst {
 		return
@@ -199,6 +216,11 @@ func (t *Taint) markStoreTarget(fn *ssa.Function, instr ssa.Instruction, addr ss
 		}
 	case *ssa.IndexAddr:
 		// element store: the container (or the array alloc) now contains taint
+		if t.NoContainment {
+			if _, isAlloc := a.X.(*ssa.Alloc); !isAlloc {
+				return
+			}
+		}
 		t.Mark(a.X, why)
 		if u, ok := a.X.(*ssa.UnOp); ok && u.Op == token.MUL {
 			t.markStoreTarget(fn, instr, u.X, v, sinkSeen)
@@ -340,6 +362,9 @@ func (t *Taint) flowFunc(fn *ssa.Function) {
 					if w, ok := t.fields[k]; ok {
 						t.Mark(x, w)
 					}
+					if t.SeedFields[k] {
+						t.Mark(x, "source: load of "+k+" at "+t.pos(fn, x.Pos()))
+					}
 				}
 			case *ssa.FieldAddr:
 				// the address itself is tainted only if the struct value is (by-value taint)
@@ -356,6 +381,9 @@ func (t *Taint) flowFunc(fn *ssa.Function) {
 						if k, _, _ := fieldKey(a.X.Type(), a.Field); k != "" {
 							if w, ok := t.fields[k]; ok {
 								t.Mark(x, w)
+							}
+							if t.SeedFields[k] {
+								t.Mark(x, "source: load of "+k+" at "+t.pos(fn, x.Pos()))
 							}
 						}
 						t.copy(x, a.X)
@@ -374,6 +402,9 @@ func (t *Taint) flowFunc(fn *ssa.Function) {
 					t.markStoreTarget(fn, x, x.Addr, x.Val, sinkSeen)
 				}
 			case *ssa.MapUpdate:
+				if t.NoContainment {
+					break
+				}
 				if t.Tainted(x.Value) {
 					t.Mark(x.Map, t.describe(fn, x, "map element", x.Value))
 				}
@@ -476,7 +507,10 @@ func (t *Taint) flowCall(fn *ssa.Function, site ssa.CallInstruction) {
 	if b, ok := c.Value.(*ssa.Builtin); ok {
 		switch b.Name() {
 		case "append":
-			for _, a := range args {
+			for i, a := range args {
+				if t.NoContainment && i > 0 {
+					continue
+				}
 				if t.Tainted(a) && resVal != nil {
 					t.Mark(resVal, t.describe(fn, site, "append", a))
 				}
@@ -527,10 +561,16 @@ func (t *Taint) flowCall(fn *ssa.Function, site ssa.CallInstruction) {
 		if skip {
 			continue
 		}
+		if t.Sanitizer != nil && t.Sanitizer(callee) {
+			continue
+		}
 		if callee.Blocks != nil && SSAFuncInRepo(callee) {
 			// interprocedural
 			params := callee.Params
 			for i, a := range allArgs {
+				if t.BlockArg != nil && t.BlockArg(site, callee, i) {
+					continue
+				}
 				if i < len(params) && t.Tainted(a) {
 					t.Mark(params[i], t.describe(fn, site, "passed to "+callee.Name(), a))
 				}
@@ -630,6 +670,9 @@ func (t *Taint) genericCall(fn *ssa.Function, site ssa.CallInstruction, name str
 				t.Mark(allArgs[w[0]], why)
 			}
 		}
+	}
+	if t.AliasMode {
+		return
 	}
 	if a, ok := anyTainted(); ok {
 		why := t.describe(fn, site, "through "+name, a)
